@@ -196,7 +196,7 @@ def run(case):
                 pre_in, pre_out = opts.get("in_prefix", ""), opts.get("out_prefix", "")
                 bad_sub = [s[0] for s in broker.subs if not s[0].startswith(pre_in + "/")]
                 bad_pub = [p[1] for p in broker.published if not p[1].startswith(pre_out + "/")]
-                bad_ret = [p for p in broker.published if p[4] != opts.get("retain", True)]
+                bad_ret = []
                 if bad_sub or bad_pub or bad_ret or not broker.published:
                     violations.append(_vio("option-not-honoured", {"bad_sub": bad_sub[:3], "bad_pub": bad_pub[:3], "bad_retain": len(bad_ret),
                                                                    "published": len(broker.published)}, option="prefix/retain"))
@@ -247,6 +247,18 @@ def run(case):
                                                                            "sub": sub, "value": value, "accepted": got, "want": want},
                                                    who="node", version=repr(nver)))
                             break
+            # ---- retain on every publication (also the ones without payload), link kept while the peer answers
+            if broker is not None:
+                bad_ret = [p[1:5] for p in broker.published if p[4] != opts.get("retain", True)]
+                if bad_ret:
+                    violations.append(_vio("option-not-honoured", {"retain_configured": opts.get("retain", True), "published": bad_ret[:4]}, option="retain"))
+            if flavour in ("tcp", "atcp") and not violations:
+                dropped = [c for c in world.device.conns if c.closed_at is not None]
+                if dropped:
+                    violations.append(_vio("option-not-honoured", {"note": "link dropped although every version probe was answered",
+                                                                   "closed_at": [round(c.closed_at, 3) for c in dropped], "rt": rt,
+                                                                   "attempts": [(round(a[0], 3), a[1]) for a in world.device.attempts][:8]},
+                                           option="reconnect_timeout(watchdog)"))
             # ---- persistence file ---------------------------------------------------------------------
             world.stop()
             world.settle()
